@@ -27,6 +27,9 @@ func init() {
 }
 */
 
+// maxSnappyExpansion bounds decoded size / encoded size of a valid snappy block (64 bytes per 3-byte copy element).
+const maxSnappyExpansion = 22
+
 type snappyBuf struct {
 	buf []byte
 }
@@ -83,6 +86,11 @@ func (se snappyEncoding) Unmarshal(buf []byte, msg drpc.Message) (err error) {
 	decodedLen, err := snappy.DecodedLen(buf)
 	if err != nil {
 		return
+	}
+	// the declared length comes from the peer: the densest snappy element (a 3-byte copy) yields 64 bytes,
+	// so a block can never decode to more than maxSnappyExpansion times its own size
+	if decodedLen > maxSnappyExpansion*len(buf) {
+		return snappy.ErrCorrupt
 	}
 
 	var unmarshalBuf *snappyBuf
